@@ -19,14 +19,14 @@ LANDMARK_OK = {("SE2", "R2"), ("SE3", "R3"), ("R2", "R2"), ("R3", "R3")}
 
 META = {
     "rule": "full product (edge kind) x (vertex count 1..3) x (pose type of each endpoint) x (measurement type in R2,R3,SE2,SE3,ndarray,None) x "
-    "(offset type, landmark only) x (information shape n x n, n x (n+1), n=1..7) x (id present/absent) x (vertex list order: named, reversed, distractor first) x (edge object fresh / already bound to other vertex objects with the same ids); "
+    "(offset type, landmark only) x (information shape n x n, n x (n+1), n=1..7) x (id present/absent) x (vertex list order: named, reversed, distractor first) x (edge object fresh / already bound to other vertex objects with the same ids / all endpoints marked fixed / ids given as a tuple / as numpy integers / information all zero / all ones); "
     "oracle = truth table written from the documentation; non-trivial = the configuration differs from a consistent one in exactly one factor, or is consistent",
     "assumptions": [
         "python is not run with -O (the validity check is an assert)",
         "a landmark edge whose offset is None is not judged for accept/reject (documentation allows None in the signature but defines no meaning)",
         "truth table vf/checks/c18.py:expected_valid is trusted",
     ],
-    "required_classes": ["prebound_stale", "accepted", "rejected", "order:named", "order:reversed", "order:distractor", "id_absent", "landmark", "odometry"],
+    "required_classes": ["variant:allfixed", "variant:tuple_ids", "variant:npint_ids", "variant:info_zero", "variant:info_rank1", "prebound_stale", "accepted", "rejected", "order:named", "order:reversed", "order:distractor", "id_absent", "landmark", "odometry"],
     "bounds": {"quick": "the complete product named in the property + id alphabets (negative, sparse, huge) + custom edges with their own is_valid + all ordered 2-edge graphs over a consistent/inconsistent edge alphabet (a bad edge after a good edge of the same kind; both edges naming the same two vertices) + every vertex-list order of 3..5-vertex graphs (ids 0..N-1 and sparse) + every line order of a 5-line .g2o file with and without an unknown id", "thorough": "same"},
 }
 
@@ -91,6 +91,10 @@ def _cases_prod(edge, pt):
                     for order in ORDERS:
                         for pre in (None, "stale"):
                             yield {"t": "prod", "edge": edge, "ptypes": pt, "meas": meas, "offset": off, "shape": list(sh), "absent": absent, "order": order, "ids": None, "prebound": pre}
+                        # the same verdict when every endpoint is marked fixed, when the ids come as a tuple / as numpy integers, and
+                        # when the information matrix (of whatever shape) is singular: none of these is part of "consistent"
+                        for var in ("allfixed", "tuple_ids", "npint_ids", "info_zero", "info_rank1"):
+                            yield {"t": "prod", "edge": edge, "ptypes": pt, "meas": meas, "offset": off, "shape": list(sh), "absent": absent, "order": order, "ids": None, "prebound": None, "variant": var}
 
 
 def _near_valid(case):
@@ -158,6 +162,8 @@ def run_chunk(chunk, tier, seed):
                 acc.cls("id_absent")
             if case.get("prebound"):
                 acc.cls("prebound_stale")
+            if case.get("variant"):
+                acc.cls("variant:" + case["variant"])
         if msgs:
             acc.violation(case, msgs)
         if outcome == "accepted":
@@ -186,13 +192,26 @@ def _build(case):
     named_ids = list(ids)
     if case["absent"]:
         named_ids[-1] = 424242
+    var = case.get("variant")
+    if var == "allfixed":
+        for v in byid.values():
+            v.fixed = True
     info = np.ones(tuple(case["shape"]), dtype=float) + (np.eye(*case["shape"]))
+    if var == "info_zero":
+        info = np.zeros(tuple(case["shape"]), dtype=float)
+    elif var == "info_rank1":
+        info = np.ones(tuple(case["shape"]), dtype=float)
+    named_arg = named_ids
+    if var == "tuple_ids":
+        named_arg = tuple(named_ids)
+    elif var == "npint_ids":
+        named_arg = [np.int64(i) for i in named_ids]
     meas = _mk_meas(case["meas"], pt[-1] if case["edge"] == "landmark" else pt[0])
     if case["edge"] == "odometry":
-        e = I.EdgeOdometry(named_ids, info, meas)
+        e = I.EdgeOdometry(named_arg, info, meas)
     else:
         off = _mk_meas(case["offset"], pt[0])
-        e = I.EdgeLandmark(named_ids, info, meas, offset=off)
+        e = I.EdgeLandmark(named_arg, info, meas, offset=off)
     if case.get("prebound") == "stale":
         # the edge object arrives already bound to OTHER vertex objects (same ids, e.g. it was used in an earlier graph):
         # construction must re-bind it to the vertices of THIS graph
